@@ -3,6 +3,7 @@
 // default limit).  Same line protocol as lean/Driver/C08.lean.  Keys and string values are handed over as
 // string_views into exact-size heap blocks without a terminating NUL and are freed right after each call.
 #include "common.h"
+#include "metrics_factories.h"
 
 #include <algorithm>
 #include <chrono>
@@ -677,7 +678,10 @@ static std::string run_sdk(const std::vector<std::string> &t)
   std::vector<ParsedOp> ops;
   if (!parse_ops(vh::split_ops(t, 4), temps.size(), ops)) return "bad-op";
   bool fast = temps.size() == 1 && temps[0] == sm::AggregationTemporality::kDelta;
-  sm::MeterProvider mp;
+  // provider, registry, view and selectors through the constructors or the *Factory::Create overloads (metrics_factories.h)
+  const uint64_t hash = vhm::case_hash(t);
+  auto mp_p           = vhm::make_provider(hash, vhm::mix(hash, 1) % 2 ? vhm::make_registry(hash) : nullptr, nullptr, nullptr).provider;
+  sm::MeterProvider &mp = *mp_p;
   std::vector<std::shared_ptr<Reader>> readers;
   for (auto tp : temps)
   {
@@ -685,9 +689,9 @@ static std::string run_sdk(const std::vector<std::string> &t)
     mp.AddMetricReader(readers.back());
   }
   {
-    std::unique_ptr<sm::View> view(new sm::View("c", "", "", sm::AggregationType::kDefault, nullptr, std::move(proc)));
-    std::unique_ptr<sm::InstrumentSelector> is(new sm::InstrumentSelector(sm::InstrumentType::kCounter, "c", ""));
-    std::unique_ptr<sm::MeterSelector> ms(new sm::MeterSelector("m", "1", "s"));
+    auto view = vhm::make_view(hash, "c", "", "", sm::AggregationType::kDefault, nullptr, std::move(proc));
+    auto is   = vhm::make_isel(hash, sm::InstrumentType::kCounter, "c", "");
+    auto ms   = vhm::make_msel(hash, "m", "1", "s");
     mp.AddView(std::move(is), std::move(ms), std::move(view));
   }
   auto meter   = mp.GetMeter("m", "1", "s");
@@ -761,7 +765,9 @@ static std::string run_obs(const std::vector<std::string> &t)
   for (auto &op : ops)
     if (op.kind == 0 || (op.kind == 1 && op.value == 0)) return "bad-op";  // only recn (v >= 1) / col: one Observe per set and cycle
   bool fast = temps.size() == 1 && temps[0] == sm::AggregationTemporality::kDelta;
-  sm::MeterProvider mp;
+  const uint64_t hash = vhm::case_hash(t);
+  auto mp_p           = vhm::make_provider(hash, vhm::mix(hash, 1) % 2 ? vhm::make_registry(hash) : nullptr, nullptr, nullptr).provider;
+  sm::MeterProvider &mp = *mp_p;
   std::vector<std::shared_ptr<Reader>> readers;
   for (auto tp : temps)
   {
